@@ -703,6 +703,7 @@ def check_c17(tier, seed, log=print):
     if cli is not None:
         cq = ['CASE c']
         seqs = []
+        bseqs = []
         for i, c in enumerate(cases[: (25 if tier == 'quick' else 200)]):
             cap = caps[i]
             if cap is None or cap.strip is None or cap.codetext is None:
@@ -755,35 +756,81 @@ def check_c17(tier, seed, log=print):
                 after = open(outp, newline='').read() if os.path.exists(outp) else None
                 seqs.append((i, op, state, p.returncode, after, expected))
                 state = after
-        # directed: every class of file state relative to the expected output x (write | check), then a check
+        # directed: every class of file state relative to the expected output x (write | check), then a check.  The file is handled
+        # as bytes: it may not be valid UTF-8 (one byte of the expected output replaced by 0xff; a U+FFFD of the output replaced by
+        # a lone 0xff, which a lossy decoder maps back to U+FFFD)
         ndirected = 0
-        for i, c in enumerate(cases[: (4 if tier == 'quick' else 16)]):
+        dcases = list(enumerate(cases[: (4 if tier == 'quick' else 16)])) + [(j, c) for j, c in enumerate(cases) if c['family'] == 'c17-replacement-char']
+        for i, c in dcases:
             cap = caps[i]
             if cap is None or cap.strip is None or cap.codetext is None:
                 continue
             inp = os.path.join(wdir, 'in%d.rs' % i)
+            open(inp, 'w').write(c['src'])
             outp = os.path.join(wdir, 'dout%d.rs' % i)
             expected = bytes.fromhex(cap.strip).decode('utf-8') + cap.codetext
+            eb = expected.encode('utf-8')
             half = len(expected) // 2
             pre_states = [None, '', 'short garbage', expected + '\n// a longer file than the output\n' * 3, 'x' * (len(expected) + 57), expected,
                           expected.replace('\n', '\r\n'), expected + '\n', expected + '\n// stale line\n', '\n'.join(expected.split('\n')[:-1]),
                           expected[:half], expected[:half] + ('#' if expected[half] != '#' else '%') + expected[half + 1:], expected + expected]
+            pre_states = [None if x is None else x.encode('utf-8') for x in pre_states]
+            pre_states += [eb[:half] + b'\xff' + eb[half + 1:], eb + b'\xc3', b'\xff\xfe' + eb]
+            if b'\xef\xbf\xbd' in eb:
+                pre_states += [eb.replace(b'\xef\xbf\xbd', b'\xff'), eb.replace(b'\xef\xbf\xbd', b'\xef\xbf', 1)]
             for pre in pre_states:
                 for op in ('write', 'check'):
                     if pre is None:
                         if os.path.exists(outp):
                             os.remove(outp)
                     else:
-                        open(outp, 'w', newline='').write(pre)
+                        open(outp, 'wb').write(pre)
                     state = pre
                     for op2 in (op, 'check'):
                         args = [cli, inp, '--output', outp] + (['--check'] if op2 == 'check' else [])
                         p = subprocess.run(args, capture_output=True, text=True)
                         cli_runs += 1
                         ndirected += 1
-                        after = open(outp, newline='').read() if os.path.exists(outp) else None
-                        seqs.append((i, op2, state, p.returncode, after, expected))
+                        after = open(outp, 'rb').read() if os.path.exists(outp) else None
+                        bseqs.append((i, op2, state, p.returncode, after, eb))
                         state = after
+        def is_utf8(b_):
+            try:
+                b_.decode('utf-8')
+                return True
+            except UnicodeDecodeError:
+                return False
+        bq = ['CASE c'] + ['Q CLI %d %s %s' % (1 if op == 'check' else 0, 'none' if before is None else hexs(before), hexs(eb)) for (i, op, before, rc, after, eb) in bseqs]
+        bans = P.run_lean(bq, nproc=1)
+        for (i, op, before, rc, after, eb) in bseqs:
+            readable = before is not None and is_utf8(before)
+            holds = readable and before.decode('utf-8').splitlines() == eb.decode('utf-8').splitlines()
+            msg = None
+            if op == 'check':
+                if after != before:
+                    msg = '--check modified the output file'
+                elif (rc == 0) != holds:
+                    msg = '--check exit status %d although the file %s the expected output' % (rc, 'holds' if holds else 'does not hold')
+            elif before is not None and not readable:
+                # an existing file that cannot be read as text: the tool may stop with an error and leave it, or replace it
+                if not ((rc != 0 and after == before) or (rc == 0 and after is not None and is_utf8(after) and after.decode('utf-8').splitlines() == eb.decode('utf-8').splitlines())):
+                    msg = 'write on an unreadable file: exit status %d and the file is neither untouched nor the expected output' % rc
+            else:
+                if rc != 0:
+                    msg = 'write failed'
+                elif after is None or not is_utf8(after) or after.decode('utf-8').splitlines() != eb.decode('utf-8').splitlines():
+                    msg = 'file after write is not (stripped enum + implementation)'
+            if msg:
+                run.violation('cli', dict(definition=cases[i]['src'], op=op, exit=rc, file_before_hex=(before or b'')[:120].hex(), file_readable=readable, what=msg),
+                              key='cli|%s|%s' % (cases[i]['src'], op))
+            q = 'c CLI %d %s %s' % (1 if op == 'check' else 0, 'none' if before is None else hexs(before), hexs(eb))
+            mv = bans.get(q, '')
+            real = '%s %s' % ('ok' if rc == 0 else 'failed', 'none' if after is None else hexs(after))
+            if mv and mv != real:
+                tie_dis += 1
+                if not msg:
+                    run.violation('tie', dict(definition=cases[i]['src'], op=op, model=mv[:100], real=real[:100],
+                                              correspondence='logos-cli main vs LogosModel.Strip.cliRunFile'), no_input=True, key='clitie|%s|%s' % (cases[i]['src'], op))
         for (i, op, before, rc, after, expected) in seqs:
             cq.append('Q CLI %d %s %s' % (1 if op == 'check' else 0, 'none' if before is None else hexs(before.encode('utf-8')), hexs(expected.encode('utf-8'))))
         mans = P.run_lean(cq, nproc=1)
